@@ -44,12 +44,14 @@ TInLoad == /\ IsHook("relay.in.load") /\ ~ldI /\ pcI \in {"lock", "fwd"} /\ stI 
 TOutLoad == /\ IsHook("relay.out.load") /\ ~ldO /\ pcO \in {"lock", "fwd"} /\ stO = StatusOf(Ev.a[1])
             /\ ldO' = TRUE /\ UNCHANGED <<vars, dS, dC, ldI>>
 
-(* the hook does not say which reader parked: whichever is at its lock step *)
+(* the hook does not say which reader parked: whichever holds the lock.  The hook is emitted     *)
+(* inside the critical section, after the re-load: the re-load (InLock / OutLock) is a silent  *)
+(* step, the hook confirms the value it read and performs the rest of the section              *)
 TParkDone == /\ IsHook("relay.park.done") /\ KeepT
              /\ \/ (ldI /\ InPark /\ pcI' = "read") \/ (ldO /\ OutPark /\ pcO' = "read")
 TParkSkip == /\ IsHook("relay.park.skip") /\ KeepT
-             /\ \/ (ldI /\ InPark /\ pcI' = "fwd" /\ stI' = StatusOf(Ev.a[1]))
-                \/ (ldO /\ OutPark /\ pcO' = "fwd" /\ stO' = StatusOf(Ev.a[1]))
+             /\ \/ (ldI /\ InPark /\ pcI' = "fwd" /\ stI = StatusOf(Ev.a[1]))
+                \/ (ldO /\ OutPark /\ pcO' = "fwd" /\ stO = StatusOf(Ev.a[1]))
 
 TInFwd == IsHook("relay.in.fwd") /\ ldI /\ InFwd /\ stI = StatusOf(Ev.a[1]) /\ KeepT
 TOutFwd == IsHook("relay.out.fwd") /\ ldO /\ OutFwd /\ stO = StatusOf(Ev.a[1]) /\ KeepT
@@ -60,6 +62,7 @@ TOutTrigger == IsHook("relay.out.trigger") /\ OutTrigger /\ KeepT
 (* and their hooks only confirm that they have happened                                           *)
 TStoreSilent == /\ More /\ UNCHANGED l /\ KeepT
                 /\ \/ OutStoreH \/ InMark \/ OutMark \/ WkStore \/ InLoad \/ OutLoad
+                   \/ (ldI /\ InLock) \/ (ldO /\ OutLock)     \* Lock + re-load inside addHandshakeBuffer
 TReset2 == IsHook("relay.reset") /\ KeepT /\ UNCHANGED vars
 
 (* recvAction / recvConfig returned (with a line, or with an error for an undecodable one) *)
